@@ -83,6 +83,13 @@ func Generated() []Prog {
 		"def swap_plain\n  sa, sb = sb, sa\n  sa\nend\ndef order(first, second = nil)\n  first, second = second, first\n  second\nend\ndbtp order(1, \"s\")\ndef kwswap(ka, kb: 1)\n  ka, kb = kb, ka\n  kb\nend\ndbtp kwswap(2, kb: \"x\")\nma, mb = 1, \"s\"\ndbtp mb\nmc, md = [1.5, :q]\ndbtp mc\nme, *mf = 1, 2, 3\ndbtp mf\n",
 		// calls of configured methods with too many arguments and wrong argument types, on literals and variables
 		"sz = \"abc\"\ndbtp sz.length(1)\ndbtp sz.upcase(1, 2)\ndbtp sz.size(1, 2, 3)\nax = [1]\ndbtp ax.first(1, 2)\ndbtp ax.length(1, 2, 3)\ndbtp 1.zero?(1)\ndbtp 1.to_s(1, 2, 3)\nhx = {a: 1}\ndbtp hx.keys(1)\ndbtp hx.size(1, 2, 3)\ndbtp sz.to_s(1, 2, 3)\ndbtp sz + 1\ndbtp 1 + \"s\"\n",
+		// conditionals with empty branches (the value of the conditional is observable), case/in with an empty body
+		"def pick(pa)\n  if pa == 1\n    1\n  else\n  end\nend\ndbtp pick(1)\npick(1) + 1\npv = unless pick(2).nil?\n  2.5\nelse\nend\ndbtp pv\ndef pack(pb)\n  if pb.nil?\n  else\n    \"s\"\n  end\nend\ndbtp pack(1)\n",
+		"pc = 1\npd = case pc\nin Integer\nin String\n  2\nend\ndbtp pd\npe = case pc\nwhen 1\nwhen 2\n  \"s\"\nelse\nend\ndbtp pe\n",
+		// a class (not a module) with `class << self` holding methods with parameters, an index and a block
+		"class Config\n  class << self\n    def load(path, mode = 1)\n      @store = [path]\n      @store[0]\n    end\n\n    def each_key(keys)\n      keys.each { |kk| kk.to_s }\n    end\n  end\n\n  def reload(force)\n    force\n  end\nend\ndbtp Config.load(\"a\", 2)\nConfig.each_key([:a])\nConfig.new.reload(true)\nConfig.zork\n",
+		// values whose type is a union returned by an operator on a union receiver, used afterwards
+		"cu = true\nuv = cu ? 1 : 2.5\nuw = uv * 2\ndbtp uw\nuw.abs\nuq = cu ? \"zz\" : 7\nur = uq * 2\ndbtp ur\nus = cu ? 7 : \"zz\"\nut = us * 2\ndbtp ut\nuw.zork\n",
 		// top-level redefinitions and re-bindings: the last definition / binding before a use wins
 		"def label\n  1\nend\nmark = 1\ndef label\n  \"s\"\nend\nmark = \"s\"\ndef label\n  2.5\nend\nmark = 2.5\ndbtp label\ndbtp mark\nlabel.upcase\nmark.upcase\n",
 		"class Gauge\n  def read\n    1\n  end\nend\nclass Gauge\n  def read\n    \"s\"\n  end\nend\ngg = Gauge.new\ndbtp gg.read\ngg.read.zork\n",
@@ -147,6 +154,10 @@ func OddLiteralPrograms() []Prog {
 		"def mq(a)\n  a\nend\nmq(" + ml + ", 2)\nmq " + ml + "\nKq." + ml + "\n",
 		"yq = :" + ml + "\nyq.zork\nrequire " + ml + "\nraise " + ml + "\n",
 		"case " + ml + "\nwhen " + ml + "\n  1.zork\nend\nzq = " + ml + " + 1\n",
+		// hand-written strategies and arity diagnostics that echo an argument's source text
+		"aq = [1]\naq.slice(" + ml + ")\naq.slice(0, " + ml + ")\ndef oq(a)\n  a\nend\noq(1, " + ml + ")\naq.first(" + ml + ", " + ml + ")\n1.dup(" + ml + ")\n",
+		"class Kq\n  attr_reader " + ml,
+		"xq = {}\nxq[" + ml + "] = 1\nxq.zork(" + ml + " => 1)\nputs " + ml + ".zork\nyq = \"a\" + " + ml + " + 1\n",
 	}
 	var out []Prog
 	for i, s := range srcs {
